@@ -2,7 +2,12 @@
 the truncation marker, and the pickling protocol (`__reduce__`) of the stand-in classes;
 billiard.pool.MaybeEncodingError -- constructor shape, whether it defines `__reduce__`, and (if so) the
 body of `__reduce__` and of the rebuild function it names, matched statement by statement and emitted
-as data (`mee_reduce_attrs`, `mee_rebuild_sets`, `mee_rebuild_init`) that EInfoProofs interprets.
+as data (`mee_reduce_attrs`, `mee_rebuild_sets`, `mee_rebuild_init`) that EInfoProofs interprets;
+HOW every attribute of the stand-ins `_Frame`, `_Code`, `Traceback` is READ from the live object
+(`frame_reads`, `code_reads`, `tb_reads`: a literal, `obj.attr`, `obj.ns.get(k[, d])`, `obj.ns[k]`,
+`try: .. = obj.ns[k] except KeyError: pass`, ...) -- `.get(k)` and `[k]` differ on missing keys, and
+EInfoProofs.gen_copy_lframe_eq proves that the reads as translated never raise, whatever the live
+frame's namespaces hold, and produce the model's stand-in.
 
 Bespoke fail-closed generator (EXTRA_GENERATORS): Traceback.__init__ calls itself and
 copies attributes of foreign objects, which is outside pykernel's statement subset, so the
@@ -194,6 +199,146 @@ def _mee_reduce(ptree, mee):
     return red_attrs, sets, inits[0], f.name
 
 
+def _str_const(n):
+    return isinstance(n, ast.Constant) and isinstance(n.value, str)
+
+
+def _rd(v, param, where):
+    """how one value of a stand-in's constructor is read from the live object `param` -> Coq `rd` term
+    (fail closed: anything not listed is a translator error)"""
+    def bad():
+        raise TranslateError('billiard/einfo.py: %s: the read `%s` is not understood' % (where, _u(v)))
+
+    def ns_of(e):
+        # param.<ns>
+        if isinstance(e, ast.Attribute) and isinstance(e.value, ast.Name) and e.value.id == param \
+                and isinstance(e.ctx, ast.Load):
+            return e.attr
+        return None
+
+    if isinstance(v, ast.Constant) and (v.value is None or isinstance(v.value, (bool, int, str, bytes))):
+        return 'RdConst %s' % _codes(_u(v))
+    if isinstance(v, (ast.Dict, ast.Tuple, ast.List)) and not (v.keys if isinstance(v, ast.Dict) else v.elts):
+        return 'RdConst %s' % _codes(_u(v))
+    if ns_of(v) is not None:
+        return 'RdAttr %s' % _codes(v.attr)
+    if isinstance(v, ast.Subscript) and isinstance(v.ctx, ast.Load) and ns_of(v.value) is not None \
+            and _str_const(v.slice):
+        return 'RdIndex %s %s' % (_codes(v.value.attr), _codes(v.slice.value))
+    if isinstance(v, ast.Call) and not v.keywords:
+        f = v.func
+        # param.ns.get(k) / param.ns.get(k, "d") / param.ns.get(k, None)
+        if isinstance(f, ast.Attribute) and f.attr == 'get' and ns_of(f.value) is not None \
+                and len(v.args) in (1, 2) and _str_const(v.args[0]):
+            d = 'None'
+            if len(v.args) == 2:
+                if _str_const(v.args[1]):
+                    d = '(Some %s)' % _codes(v.args[1].value)
+                elif not (isinstance(v.args[1], ast.Constant) and v.args[1].value is None):
+                    bad()
+            return 'RdGet %s %s %s' % (_codes(f.value.attr), _codes(v.args[0].value), d)
+        # self.<Class>(param.attr): copy of a sub-object
+        if isinstance(f, ast.Attribute) and isinstance(f.value, ast.Name) and f.value.id == 'self' \
+                and len(v.args) == 1 and ns_of(v.args[0]) is not None:
+            return 'RdSub %s %s' % (_codes(f.attr), _codes(v.args[0].attr))
+        # list(param.attr())
+        if isinstance(f, ast.Name) and f.id == 'list' and len(v.args) == 1 \
+                and isinstance(v.args[0], ast.Call) and not v.args[0].args and not v.args[0].keywords \
+                and ns_of(v.args[0].func) is not None:
+            return 'RdCall %s' % _codes(v.args[0].func.attr)
+    bad()
+
+
+def _reads(fn, cname):
+    """every attribute the constructor `cname.__init__(self, <param>)` stores, with how it is read, in
+    program order: [(attribute, key or None, rd term)].  Accepted statements (anything else raises):
+        self.a = <read>                       self.a = {"k": <read>, ...}
+        self.a = local = {}                   (local: alias of the dict stored in self.a)
+        try: local["k"] = <param>.ns["k2"]    (missing key tolerated)
+        except KeyError: pass
+        if sys.version_info >= (3, 11): <such statements>       (the harness runs 3.12)"""
+    where = cname + '.__init__'
+    a = fn.args
+    _expect(len(a.args) == 2 and a.args[0].arg == 'self' and not a.vararg and not a.kwarg
+            and not a.kwonlyargs and not a.defaults, '%s signature changed' % where)
+    param = a.args[1].arg
+    out, alias, seen = [], {}, set()
+
+    def add(attr, key, rd, src):
+        _expect((attr, key) not in seen, '%s: %s%s assigned twice' % (where, attr, '[%r]' % key if key else ''))
+        seen.add((attr, key))
+        out.append((attr, key, rd, src))
+
+    def self_attr(t):
+        if isinstance(t, ast.Attribute) and isinstance(t.value, ast.Name) and t.value.id == 'self' \
+                and isinstance(t.ctx, ast.Store):
+            return t.attr
+        return None
+
+    def stmts(body):
+        for st in body:
+            line = _u(st).split('\n')[0]
+            if isinstance(st, ast.Assign):
+                attrs = [self_attr(t) for t in st.targets]
+                names = [t.id for t in st.targets if isinstance(t, ast.Name)]
+                _expect(sum(x is not None for x in attrs) == 1 and len(names) == len(st.targets) - 1,
+                        '%s: unexpected assignment `%s`' % (where, line))
+                attr = [x for x in attrs if x is not None][0]
+                v = st.value
+                if names:
+                    _expect(isinstance(v, ast.Dict) and not v.keys,
+                            '%s: only an empty dict may be bound to a local as well: `%s`' % (where, line))
+                    for n in names:
+                        _expect(n not in alias and n != param, '%s: local %s rebound' % (where, n))
+                        alias[n] = attr
+                if isinstance(v, ast.Dict) and v.keys:
+                    _expect(all(k is not None and _str_const(k) for k in v.keys),
+                            '%s: dict display with non-literal keys: `%s`' % (where, line))
+                    add(attr, None, 'RdConst %s' % _codes('{..}'), '{..}')
+                    for k, e in zip(v.keys, v.values):
+                        add(attr, k.value, _rd(e, param, where), _u(e))
+                else:
+                    add(attr, None, _rd(v, param, where), _u(v))
+            elif isinstance(st, ast.Try):
+                ok = (len(st.body) == 1 and isinstance(st.body[0], ast.Assign) and len(st.body[0].targets) == 1
+                      and len(st.handlers) == 1 and not st.orelse and not st.finalbody
+                      and isinstance(st.handlers[0].type, ast.Name) and st.handlers[0].type.id == 'KeyError'
+                      and st.handlers[0].name is None
+                      and len(st.handlers[0].body) == 1 and isinstance(st.handlers[0].body[0], ast.Pass))
+                _expect(ok, '%s: unexpected try statement `%s`' % (where, line))
+                t, v = st.body[0].targets[0], st.body[0].value
+                _expect(isinstance(t, ast.Subscript) and isinstance(t.value, ast.Name) and t.value.id in alias
+                        and _str_const(t.slice), '%s: try body does not store into a local dict: `%s`'
+                        % (where, _u(st.body[0])))
+                rd = _rd(v, param, where)
+                _expect(rd.startswith('RdIndex '), '%s: try body does not read `%s.ns[k]`: `%s`'
+                        % (where, param, _u(st.body[0])))
+                add(alias[t.value.id], t.slice.value, 'RdTryIndex ' + rd[len('RdIndex '):],
+                    'try: %s / except KeyError: pass' % _u(v))
+            elif isinstance(st, ast.If):
+                _expect(_u(st.test) == 'sys.version_info >= (3, 11)' and not st.orelse,
+                        '%s: unexpected conditional `%s`' % (where, line))
+                stmts(st.body)
+            else:
+                _expect(False, '%s: unexpected statement `%s`' % (where, line))
+
+    stmts(_strip_doc(fn.body))
+    return param, out
+
+
+def _emit_reads(out, name, comment, reads):
+    out.append('(* %s *)' % comment)
+    out.append('Definition %s : list (list Z * option (list Z) * rd) :=' % name)
+    def note(a, k, src):
+        txt = 'self.%s%s = %s' % (a, '[%r]' % k if k is not None else '', src)
+        return '(* %s *)' % txt.replace('"', "'").replace('*)', '* )').replace('(*', '( *')
+    out.append('  [' + ';\n   '.join('%s\n   (%s, %s, %s)' % (note(a, k, src), _codes(a),
+                                                             'Some %s' % _codes(k) if k is not None else 'None', r)
+                                     for a, k, r, src in reads) + '].')
+    out.append('')
+
+
+
 def gen_einfo(repo):
     rel = 'billiard/einfo.py'
     tree = _parse(repo, rel)
@@ -302,6 +447,35 @@ def gen_einfo(repo):
     _expect(cattrs.get('Frame') == '_Frame' and cattrs.get('Code') == '_Code',
             'Traceback.Frame / _Frame.Code rebound: %r' % cattrs)
 
+
+    # ---- HOW each attribute of the stand-ins is read (data; the totality proof is in EInfoProofs)
+    out.append('(* how a value stored by a stand-in constructor is read from the live object (the')
+    out.append('   constructor\'s parameter):  literal | obj.a | list(obj.a()) | self.C(obj.a) |')
+    out.append('   obj.ns.get(k[, "d"]) | obj.ns[k] (KeyError when k is missing) |')
+    out.append('   try: .. = obj.ns[k] except KeyError: pass *)')
+    out.append('Inductive rd :=')
+    out.append('| RdConst (c : list Z) | RdAttr (a : list Z) | RdCall (a : list Z) | RdSub (c a : list Z)')
+    out.append('| RdGet (ns k : list Z) (d : option (list Z)) | RdIndex (ns k : list Z)')
+    out.append('| RdTryIndex (ns k : list Z).')
+    out.append('')
+    _, fr_reads = _reads(find_func(tree, '_Frame.__init__'), '_Frame')
+    _, co_reads = _reads(find_func(tree, '_Code.__init__'), '_Code')
+    tparam = init.args.args[1].arg
+    tb_reads = [(t[len('self.'):], None, _rd(v, tparam, 'Traceback.__init__'), _u(v)) for t, v in head.items()]
+    _emit_reads(out, 'frame_reads', '_Frame.__init__(self, frame): (attribute, dict key, read), program order', fr_reads)
+    _emit_reads(out, 'code_reads', '_Code.__init__(self, code)', co_reads)
+    _emit_reads(out, 'tb_reads', 'Traceback.__init__(self, tb, ...): the copies before the tb_next test', tb_reads)
+    # the marker's frame: f_globals literal and the attributes it has
+    mg = [kw.value for kw in fr.keywords if kw.arg == 'f_globals']
+    _expect(len(mg) == 1 and isinstance(mg[0], ast.Dict) and all(k is not None and _str_const(k) for k in mg[0].keys)
+            and all(isinstance(e, ast.Constant) and (e.value is None or isinstance(e.value, str))
+                    for e in mg[0].values),
+            '_Truncated.tb_frame.f_globals is not a dict display of string/None literals')
+    out.append('(* _Truncated().tb_frame.f_globals: key, value (None = None, Some s = the string s) *)')
+    out.append('Definition marker_globals : list (list Z * option (list Z)) := [%s].' % '; '.join(
+        '(%s, %s)' % (_codes(k.value), 'None' if e.value is None else 'Some %s' % _codes(e.value))
+        for k, e in zip(mg[0].keys, mg[0].values)))
+    out.append('')
     # ---- pickling protocol
     for c in ('Traceback', '_Frame', '_Code', '_Truncated'):
         _reduce_is_new_dict(tree, c)
